@@ -742,6 +742,21 @@ def run_shard(spec: dict[str, Any], ctx: Ctx) -> None:
         ctx.count("clock_selftest_ok")
     maxlen = 6 if tier == "quick" else 12
     if spec["kind"] == "hist":
+        if spec["i"] == 0:
+            # environment configuration followed by REPEATED loads of templates that read it:
+            # a second get_template() (a hit, for a caching loader) renders like the first
+            for caching in (False, True):
+                for e in "AB":
+                    for acts in ([("global", "site", "S1")], [("global", "site", "S1"), ("global", "site", "S2")],
+                                 [("filter", "shout", "shout"), ("global", "site", "S2")]):
+                        for name in ("custom", "include", "child"):
+                            hist = []
+                            for act in acts:
+                                hist.append({"op": "configure", "env": e, "act": list(act)})
+                                for op in ("render", "reload", "render_async", "reload", "analyze", "reload"):
+                                    hist.append({"op": op, "env": e, "tpl": name, "data": make_data(rng), "how": "get_template"})
+                            check_history(ctx, TEMPLATES, hist, caching, "fixtures")
+                            ctx.count("configure_then_reload_histories")
         for _ in range(spec["per"]):
             hist = gen_history(rng, rng.randint(2, maxlen), ROOTS)
             check_history(ctx, TEMPLATES, hist, rng.random() < 0.5, "fixtures")
